@@ -49,6 +49,12 @@ func c05InTokens() []string {
 	return []string{"ls -l\r", "\x03", "\x1b[A", "/no/such/file ", "'/no such/file' ", "/no/such", "'/tmp", "\x1b[200~/no/such \x1b[201~", "q", "\t", "\xee\xff\x00", "trz\r", "C:\\no\\such "}
 }
 
+// c05InWhole: input that begins like a drop (paths that exist) and goes on with something that is not one: typed
+// text, not a drop. Only as one read: cut after the first path, the first read alone is a genuine drop.
+func c05InWhole() []string {
+	return []string{"/usr/bin/env ls -l ", "/etc/passwd /no/such ", "'/etc/passwd' /usr/bin/env /no/such/x ", "/usr/bin/env /etc/passwd x"}
+}
+
 type c05Opts struct{ drag, zmodem, osc52, trace bool }
 
 // c05Idle runs one case: output chunks and input chunks through a fresh filter.
@@ -240,6 +246,11 @@ func c05Run(j vs.Job) *vs.JobResult {
 					if !runCase(o, [][]byte{[]byte(outs[i%len(outs)])}, ic, fmt.Sprintf("input token %d cut", i)) {
 						return r
 					}
+				}
+			}
+			for i, it := range c05InWhole() {
+				if !runCase(o, [][]byte{[]byte(outs[i%len(outs)])}, [][]byte{[]byte(it)}, fmt.Sprintf("input %q in one read", it)) {
+					return r
 				}
 			}
 			// pairs of output tokens: as one read and as two reads
@@ -512,7 +523,7 @@ func init() {
 	vs.Register(&vs.Check{
 		ID:    "C05",
 		Level: "exploration",
-		Rule: "(i) all 16 subsets of {drag detection, zmodem, OSC52, trace log} x output tokens (text, CSI, binary, scroll-back of a handshake and of a finished transfer, triggers with bad mode/version, every listed truncation, zmodem near-misses and vetoed headers, OSC52 fragments, trace-log near-misses) and input tokens (text, Ctrl-C, escape keys, path-like input naming files that do not exist in four styles, binary), " +
+		Rule: "(i) all 16 subsets of {drag detection, zmodem, OSC52, trace log} x output tokens (text, CSI, binary, scroll-back of a handshake and of a finished transfer, triggers with bad mode/version, every listed truncation, zmodem near-misses and vetoed headers, OSC52 fragments, trace-log near-misses) and input tokens (text, Ctrl-C, escape keys, path-like input naming files that do not exist in four styles, binary; existing paths followed by a missing path or plain words as one read), " +
 			"each token with every single cut, token pairs in one and in two reads; (ii) every history of one or two transfers over {upload, download, refused, failed on the client, failed on the server, Ctrl-C keep/delete, server SIGINT, old-version server, Ctrl-C typed and answered through the menu (keep / delete / continue), the same with the server interrupted while the menu is open, and with a failure line from the peer crossing the Ctrl-C at 11 points of the transfer} followed by a probe in both directions; (iii) every history ending in a zmodem session over {download, upload} x helper {missing, exits 1, runs, silent, late} x remote {finishes, cancels, keeps sending, falls silent} x {no Ctrl-C, Ctrl-C}, after which the user types (Ctrl-C, text, CAN, escape key, a command; each a read of its own) before the remote side prints anything; (iv) a drag-and-drop upload attempt that starts no transfer x 6 ways the echo of the typed command arrives (one read, split, merged with what follows, after a ^C echo, byte-wise, none) x 3 later outputs that contain the command text as a read of its own x 8 option sets, with typed input afterwards; (v) the real trzsz binary wrapping sh for 4 exit codes x 3 output timings",
 		Assumptions: []string{"(v) is a process-level run in real time over a fixed menu (3 tries each); everything else runs under the scheduler", "the complete trace-log switch and genuine triggers / zmodem headers are not 'idle' input and are excluded"},
 		QuickBudget: 100, ThoroughBudget: 600, DiedIsViolation: true,
